@@ -36,7 +36,8 @@ inductive Body (B : Type) where
 
 /-- A kad record as a holder may return it: header kind (`none` = bytes that are no `RecordHeader`) and body.
 `Record.key` (chosen by the replying holder, compared with the queried key by nobody below the client) is not a field:
-no code on these paths reads it — the address checks are against the *requested* address / key. -/
+no code on these paths reads it — the address checks compare the *content* (a chunk's hash, a pad's own address) with
+the *requested* address / key. -/
 structure Rec (B : Type) where
   hdr : Option Kind
   body : Body B
@@ -70,8 +71,12 @@ inductive Reply (B : Type) where
   | err (e : NetErr B)
 
 /-- One iteration of the `for (record, _) in result_map.values()` loop of `handle_split_record_error`, restricted to
-the kinds `Chunk`, `Scratchpad`, `…WithPayment`: state = (kind dictated by the first parsable header, best valid pad). -/
-def splitStep (st : Option Kind × Option Pad) (r : Rec B) : Option Kind × Option Pad :=
+the kinds `Chunk`, `Scratchpad`, `…WithPayment`: state = (kind dictated by the first parsable header, best valid pad).
+`rkey` is the record key being read and `padKey owner` the record key a scratchpad of that owner lives under
+(`NetworkAddress::ScratchpadAddress(address).to_record_key()`); with `chk` the arm skips a scratchpad whose own address
+does not map to `rkey` (the pad is somebody else's: a holder can answer any key with any validly signed pad). -/
+def splitStep (chk : Bool) (padKey : Nat → Nat) (rkey : Nat) (st : Option Kind × Option Pad) (r : Rec B) :
+    Option Kind × Option Pad :=
   match headerOf r with
   | none => st
   | some k =>
@@ -82,26 +87,28 @@ def splitStep (st : Option Kind × Option Pad) (r : Rec B) : Option Kind × Opti
       match padOf r with
       | none => (some kind, st.2)
       | some p =>
+        if chk && padKey p.owner != rkey then (some kind, st.2) else
         if !p.valid then (some kind, st.2) else
         match st.2 with
         | some old => if old.ctr ≥ p.ctr then (some kind, st.2) else (some kind, some p)
         | none => (some kind, some p)
     | _ => (some kind, st.2)
 
-/-- `handle_split_record_error`: the valid scratchpad of the highest count (first such in iteration order),
-re-serialised under a `Scratchpad` header; nothing when the map has a single entry. -/
-def handleSplit (m : List (Rec B)) : Option (Rec B) :=
+/-- `handle_split_record_error`: the valid scratchpad of the highest count (first such in iteration order) among those
+that belong to the requested key (if `chk`), re-serialised under a `Scratchpad` header; nothing when the map has a
+single entry. -/
+def handleSplit (chk : Bool) (padKey : Nat → Nat) (rkey : Nat) (m : List (Rec B)) : Option (Rec B) :=
   if m.length > 1 then
-    match (m.foldl splitStep (none, none)).2 with
+    match (m.foldl (splitStep chk padKey rkey) (none, none)).2 with
     | some p => some ⟨some .scratchpad, .pad p⟩
     | none => none
   else none
 
-/-- `Network::get_record_from_network` with `retry_strategy: None` -/
-def netGet : Reply B → Except (NetErr B) (Rec B)
+/-- `Network::get_record_from_network(rkey, cfg)` with `retry_strategy: None` -/
+def netGet (chk : Bool) (padKey : Nat → Nat) (rkey : Nat) : Reply B → Except (NetErr B) (Rec B)
   | .ok r => .ok r
   | .err (.split m) =>
-    match handleSplit m with
+    match handleSplit chk padKey rkey m with
     | some r => .ok r
     | none => .error (.split m)
   | .err e => .error e
@@ -114,9 +121,9 @@ def netErrClass : NetErr B → String
   | .doesNotMatch => "mismatch"
   | .split _ => "split"
 
-/-- `Client::chunk_get(addr)` -/
-def chunkGet (S : SE B DM) (addr : Nat) (reply : Reply B) : Except GetErr (Chunk B) :=
-  match netGet reply with
+/-- `Client::chunk_get(addr)`; the record key of a chunk is its address -/
+def chunkGet (S : SE B DM) (padKey : Nat → Nat) (addr : Nat) (reply : Reply B) : Except GetErr (Chunk B) :=
+  match netGet Gen.ClientRead.netSplitChecksPadKey padKey addr reply with
   | .error e => .error (.other (netErrClass e))
   | .ok record =>
     match headerOf record with
@@ -131,12 +138,12 @@ def chunkGet (S : SE B DM) (addr : Nat) (reply : Reply B) : Except GetErr (Chunk
       | _ => .error (.other "parse")
 
 /-- `Client::data_get_public(addr)` against holders that answer key `a` with `replies a`. -/
-def dataGetPublic (S : SE B DM) (replies : Nat → Reply B) (fuel : Nat) (codes : List (List Nat)) (addr : Nat) :
-    Except GetErr B :=
-  match chunkGet S addr (replies addr) with
+def dataGetPublic (S : SE B DM) (padKey : Nat → Nat) (replies : Nat → Reply B) (fuel : Nat) (codes : List (List Nat))
+    (addr : Nat) : Except GetErr B :=
+  match chunkGet S padKey addr (replies addr) with
   | .error e => .error e
   | .ok dataMapChunk =>
-    fetchFromDataMapChunk S (fun a => chunkGet S a (replies a)) fuel codes dataMapChunk.value
+    fetchFromDataMapChunk S (fun a => chunkGet S padKey a (replies a)) fuel codes dataMapChunk.value
 
 inductive VaultErr where
   | invalid
@@ -166,9 +173,10 @@ def latestPads (key : Nat) (m : List (Rec B)) : List Pad :=
   else
     (all.filter (fun p => p.ctr == maxCtr all)).filter (splitAccepts key)
 
-/-- `get_vault_from_network` for the secret key whose public key is `key` -/
-def getVault (key : Nat) (reply : Reply B) : Except VaultErr Pad :=
-  match netGet reply with
+/-- `get_vault_from_network` for the secret key whose public key is `key`, over a network layer whose split handling
+does (`chk`) or does not compare a pad's own address with the key being read -/
+def getVaultWith (chk : Bool) (padKey : Nat → Nat) (key : Nat) (reply : Reply B) : Except VaultErr Pad :=
+  match netGet chk padKey (padKey key) reply with
   | .ok record =>
     match padOf record with
     | none => .error .invalid
@@ -180,5 +188,9 @@ def getVault (key : Nat) (reply : Reply B) : Except VaultErr Pad :=
       | [] => .error .missing
     else .error .invalid
   | .error e => .error (.network (netErrClass e))
+
+/-- `get_vault_from_network` over the network layer as it is in the source -/
+def getVault (padKey : Nat → Nat) (key : Nat) (reply : Reply B) : Except VaultErr Pad :=
+  getVaultWith Gen.ClientRead.netSplitChecksPadKey padKey key reply
 
 end SafeNet.Model.ClientRead
